@@ -1151,3 +1151,172 @@ func ruleS9p(c *Ctx) {
 	}
 	c.ok("S9p", "generateSymbolEntries|no entry is patched after it was appended", c.L.Pos(f.Pos()), fmt.Sprintf("%d stores into elements", n))
 }
+
+// ---------------------------------------------------------------------------------------
+// N13ok: a (pointer, ok) result is used only where ok (or pointer != nil) has been established
+// ---------------------------------------------------------------------------------------
+
+// impliesPresent: leaving the block through successor idx of a branch on cond implies that okv
+// is true or ptr is not nil.
+func impliesPresent(cond ssa.Value, idx int, okv, ptr ssa.Value, depth int) bool {
+	if depth > 6 || cond == nil {
+		return false
+	}
+	if okv != nil && cond == okv {
+		return idx == 0
+	}
+	switch x := cond.(type) {
+	case *ssa.UnOp:
+		if x.Op == token.NOT {
+			return impliesPresent(x.X, 1-idx, okv, ptr, depth+1)
+		}
+	case *ssa.BinOp:
+		isNil := func(v ssa.Value) bool { k, ok := v.(*ssa.Const); return ok && k.IsNil() }
+		if (x.X == ptr && isNil(x.Y)) || (x.Y == ptr && isNil(x.X)) {
+			if x.Op == token.NEQ {
+				return idx == 0
+			}
+			if x.Op == token.EQL {
+				return idx == 1
+			}
+		}
+	case *ssa.Phi:
+		// a && b true ⇒ both true;  a || b false ⇒ both false
+		allFalse, allTrue := true, true
+		var rest []ssa.Value
+		for _, e := range x.Edges {
+			if k, ok := e.(*ssa.Const); ok && k.Value != nil && k.Value.Kind() == constant.Bool {
+				if constant.BoolVal(k.Value) {
+					allFalse = false
+				} else {
+					allTrue = false
+				}
+				continue
+			}
+			rest = append(rest, e)
+		}
+		var conds []ssa.Value
+		conds = append(conds, rest...)
+		for i, e := range x.Edges {
+			if _, ok := e.(*ssa.Const); ok && i < len(x.Block().Preds) {
+				pr := x.Block().Preds[i]
+				if iff, ok := pr.Instrs[len(pr.Instrs)-1].(*ssa.If); ok {
+					conds = append(conds, iff.Cond)
+				}
+			}
+		}
+		if (allFalse && idx == 0) || (allTrue && idx == 1) {
+			for _, cd := range conds {
+				if impliesPresent(cd, idx, okv, ptr, depth+1) {
+					return true
+				}
+			}
+		}
+	}
+	return false
+}
+
+func ruleN13ok(c *Ctx) {
+	c.doc("N13ok", "where a function of this repository returns (pointer, ok), every use of the pointer (dereference, field access, passing it on to a callee) lies behind a test that ok is true or the pointer is not nil: `p, _ := f()` followed by a use of p is a nil dereference for the inputs for which f has nothing to return")
+	n := 0
+	for _, f := range c.L.RepoFuncs() {
+		if c.isGeneratedFn(f) || pkgRel(f) == "test" {
+			continue
+		}
+		per := 0
+		for _, b := range f.Blocks {
+			for _, in := range b.Instrs {
+				call, ok := in.(*ssa.Call)
+				if !ok {
+					continue
+				}
+				tup, ok := call.Type().(*types.Tuple)
+				if !ok || tup.Len() != 2 || !isBoolType(tup.At(1).Type()) {
+					continue
+				}
+				if _, isPtr := tup.At(0).Type().Underlying().(*types.Pointer); !isPtr {
+					continue
+				}
+				// the callee is repository code (static or through one of its interfaces)
+				name := calleeOrDyn(call.Common())
+				if call.Call.IsInvoke() {
+					if m := call.Call.Method; m == nil || m.Pkg() == nil || !strings.HasPrefix(m.Pkg().Path(), modPath) {
+						continue
+					}
+				} else if sc := call.Call.StaticCallee(); sc == nil || !strings.HasPrefix(funcName(sc), modPath) && !strings.Contains(funcName(sc), modPath) {
+					continue
+				}
+				var ptr, okv ssa.Value
+				for _, r := range *call.Referrers() {
+					if ex, ok := r.(*ssa.Extract); ok {
+						if ex.Index == 0 {
+							ptr = ex
+						} else {
+							okv = ex
+						}
+					}
+				}
+				if ptr == nil || ptr.Referrers() == nil {
+					continue
+				}
+				// edges that establish presence
+				var edges []cfgEdge
+				for _, gb := range f.Blocks {
+					iff, ok := gb.Instrs[len(gb.Instrs)-1].(*ssa.If)
+					if !ok {
+						continue
+					}
+					for i := 0; i < 2; i++ {
+						if impliesPresent(iff.Cond, i, okv, ptr, 0) {
+							edges = append(edges, cfgEdge{gb, i})
+						}
+					}
+				}
+				for _, r := range *ptr.Referrers() {
+					switch u := r.(type) {
+					case *ssa.DebugRef, *ssa.Return, *ssa.Phi:
+						continue
+					case *ssa.BinOp:
+						if u.Op == token.EQL || u.Op == token.NEQ {
+							continue
+						}
+					case *ssa.MakeInterface:
+						continue // logged with %v and the like
+					}
+					n++
+					per++
+					key := fmt.Sprintf("%s|use#%d of the pointer returned by %s", shortName(f), per, name)
+					guarded := len(edges) > 0 && edgesDominate(f, edges, r.Block())
+					c.check(guarded, "N13ok", key, c.L.Pos(instrPos(r)), shortName(f)+" uses the pointer returned by "+name+" without having tested its ok result (or the pointer) on the way: nil for the inputs the callee has nothing for")
+				}
+			}
+		}
+	}
+	c.analysed["N13ok_pointer_uses"] = n
+	c.check(n >= 4, "N13ok", "(pointer, ok) uses found", "", fmt.Sprintf("%d", n))
+}
+
+// ---------------------------------------------------------------------------------------
+// L14r: whether RESB reserves does not depend on where the program is located
+// ---------------------------------------------------------------------------------------
+
+func ruleL14r(c *Ctx) {
+	c.doc("L14r", "no branch of processRESB is decided by the location counter: a reservation is accepted or refused by its size alone, so inserting an ORG (or code) in front of it cannot make its zero bytes disappear")
+	f := c.L.SSAFunc("internal/pass1", "processRESB")
+	if f == nil {
+		c.anchorMissing("L14r", "internal/pass1.processRESB")
+		return
+	}
+	n := 0
+	for _, g := range unitOf(f, 2) {
+		for _, b := range g.Blocks {
+			iff, ok := b.Instrs[len(b.Instrs)-1].(*ssa.If)
+			if !ok {
+				continue
+			}
+			n++
+			c.check(!dependsOnFieldLoad(iff.Cond, "LOC"), "L14r", fmt.Sprintf("%s|branch#%d independent of LOC", shortName(g), n), c.L.Pos(instrPos(iff)), "this branch of the RESB handler tests the location counter: the same RESB is assembled or dropped depending on the address it happens to be at")
+		}
+	}
+	c.check(n >= 1, "L14r", "processRESB|branches found", c.L.Pos(f.Pos()), fmt.Sprintf("%d", n))
+}
